@@ -184,7 +184,7 @@ def validate(ctx, trace_path, label, module="QuorumReadTrace", parts=1):
         acc = set(json.loads(x)["acc"] for x in open(r.out_path))
         return [t for t in map(json.loads, chunks[k]) if t["id"] not in acc]
 
-    with ThreadPoolExecutor(max_workers=3) as ex:
+    with ThreadPoolExecutor(max_workers=8) as ex:
         return [t for part in ex.map(one, range(len(chunks))) for t in part]
 
 
@@ -231,7 +231,7 @@ def record_validate(ctx):
     """code -> spec"""
     if ctx.tier == "quick":
         env = {"VERIF_NS": "[1,2,3]", "VERIF_FLAGS": "core", "VERIF_ROUNDS": 1, "VERIF_MAXZ": 3, "VERIF_N3_ONE_VARIANT": 1,
-               "VERIF_SAMPLE_NS": "[4]", "VERIF_SAMPLES": 400, "VERIF_SAMPLE_MAXZ": 3}
+               "VERIF_SAMPLE_NS": "[4]", "VERIF_SAMPLES": 300, "VERIF_SAMPLE_MAXZ": 3}
     else:
         env = {"VERIF_NS": "[1,2,3]", "VERIF_FLAGS": "all", "VERIF_ROUNDS": 2, "VERIF_MAXZ": 3,
                "VERIF_DFS4": 1, "VERIF_SAMPLE_NS": "[4,5,6]", "VERIF_SAMPLES": 3000, "VERIF_SAMPLE_MAXZ": 4}
@@ -243,7 +243,7 @@ def record_validate(ctx):
     nrec = res.get("cases", 0)
     if nrec == 0:
         incon("no traces recorded")
-    rejected = validate(ctx, tp, "rec", parts=3)
+    rejected = validate(ctx, tp, "rec", parts=4)
     res["cases"] = nrec - len(rejected)
     absorb(ctx, res, "record")
     if not rejected:
